@@ -17,7 +17,8 @@ def replay(c):
     n = c['n']
     k = c['abort_board']
     in_play = bool(c['abort_in_play'])
-    exc = KeyboardInterrupt if c['exception'] == 'KeyboardInterrupt' else Exception
+    import builtins
+    exc = getattr(builtins, c['exception'])
     boards = sessions.mkboards(n, 3)
     # played boards unless the counterexample says passed out
     scripts = {s: [[] if c['passed_out'][b] else ([1] if s == 'N' else []) for b in range(n)] for s in 'NESW'}
